@@ -151,7 +151,8 @@ class File(Component):
                 if not any(m in self.mode for m in ('a', '+')):
                     self.close()
                 else:
-                    self._poller.discard(self._fd)
+                    # stop reading only: data may still be buffered for writing
+                    self._poller.removeReader(self._fd)
         except OSError as exc:
             if exc.args[0] in (EWOULDBLOCK, EINTR):
                 return
